@@ -31,6 +31,7 @@ FEATURES = [
     'thresholds_tiny',     # everything above threshold
     'thresholds_huge',     # nothing above threshold
     'half_rate',           # water level sampled every second step
+    'misaligned',          # water level on another step (2/3 of the rain step), interpolated by load
     'long',
     'displace_exhaust',    # a displaced storm with no candidate left
     None,
@@ -218,6 +219,22 @@ def gen(rng, force=None, dyadic=None, max_segments=10):
         zs = [[i * step, z[i]] for i in keep if i % 2 == 0]
         if len(zs) < 2:
             zs = [[i * step, z[i]] for i in keep]
+    if force == 'misaligned' and n >= 6:
+        # water level sampled on its own clock (2/3 of the rainfall step, as the
+        # 20-min / 30-min field data); values follow the piecewise-linear level
+        zstep = step * 2 // 3
+        zs = []
+        k = 0
+        while k * zstep <= (n - 1) * step:
+            t = k * zstep
+            i = min(t // step, n - 2)
+            frac = (t - i * step) / step
+            zs.append([t, z[i] + (z[i + 1] - z[i]) * frac])
+            k += 1
+        for _ in range(rng.choice([0, 1, 2])):
+            if len(zs) > 8:
+                i = rng.randint(2, len(zs) - 4)
+                del zs[i:i + rng.randint(1, 3)]
     if force == 'thresholds_tiny':
         sthr = jthr = 1e-12
     elif force == 'thresholds_huge':
